@@ -9,7 +9,7 @@
    selection.  The index-level theorems hold for every index that describes the points. *)
 From Coq Require Import List ZArith NArith Bool.
 From TF Require Import Base Query Index DB Spec proofs.IndexDefs proofs.RepP proofs.DBReadP proofs.DBRemoveP
-     proofs.DBStepP proofs.DBRunP proofs.DBSpecP proofs.GetterP proofs.LawsP IndexSem proofs.IndexGenP proofs.IndexGetP.
+     proofs.DBStepP proofs.DBRunP proofs.DBSpecP proofs.GetterP proofs.LawsP IndexSem proofs.IndexGenP proofs.IndexGetP proofs.TagValsP.
 From TF Require gen.IndexGen.
 Import ListNotations.
 
@@ -107,6 +107,15 @@ Theorem C07_source_index_no_empty_tag_key : forall g pts p r u, gwf g -> tne (_t
   tne (_tags (IndexGen.gen_build g pts)) /\ tne (_tags (IndexGen.gen_insert g [p])) /\ tne (_tags (IndexGen.gen_update (IndexGen.gen_remove g r) u)) /\ tne (_tags (IndexGen.gen__reset g)).
 Proof. exact source_tne. Qed.
 
+(* get_tag_values: a dict of sets built by four differently written loop nests (all keys or the keys asked for; every value or the values whose postings
+   meet the measurement's); canon_tv = keys ascending, each key's values ascending with None last, as the database layer hands the result on *)
+Theorem C07_source_index_tag_values_is_the_model : forall g ks m, gwf g -> tne (_tags g) ->
+  canon_tv (IndexGen.gen_get_tag_values g ks m) = ix_get_tag_values (abs g) ks m.
+Proof. exact gen_get_tag_values_eq. Qed.
+Theorem C07_source_index_tag_values_exact : forall g pts ks m, gwf g -> tne (_tags g) -> Rep (abs g) pts -> wf_points pts ->
+  canon_tv (IndexGen.gen_get_tag_values g ks m) = scan_tag_values ks (in_meas m pts).
+Proof. exact source_tag_values_exact. Qed.
+
 Print Assumptions C07_source_index_len_is_the_model.
 Print Assumptions C07_source_index_valid_is_the_model.
 Print Assumptions C07_source_index_measurements_is_the_model.
@@ -121,3 +130,5 @@ Print Assumptions C07_source_index_tag_keys_is_the_model.
 Print Assumptions C07_source_index_field_keys_exact.
 Print Assumptions C07_source_index_tag_keys_exact.
 Print Assumptions C07_source_index_no_empty_tag_key.
+Print Assumptions C07_source_index_tag_values_is_the_model.
+Print Assumptions C07_source_index_tag_values_exact.
